@@ -10,7 +10,7 @@ CHECKS = {
         "level": "exploration",
         "rule": "one evaluation = one Prove(+Verify) under a tape-chosen schedule; a case = (backend, curve, generated circuit, witness, nbTasks, option set, scenario in "
                 "{valid, invalid witness, hint error at invocation k, entropy error / short read at draw k}); distinct_nontrivial counts distinct case descriptors",
-        "quick": {"runs": 640, "budget_s": 220, "selftest_runs": 5, "params": {"slots": 32}},
+        "quick": {"runs": 640, "budget_s": 220, "race_runs": 48, "race_budget_s": 70, "selftest_runs": 5, "params": {"slots": 32}},
         "thorough": {"runs": 30000, "budget_s": 2700, "race_runs": 1500, "race_budget_s": 1500, "selftest_runs": 8, "params": {"slots": 64}},
         "expect_probes": ["scenario:valid", "scenario:invalid-witness", "hint_error", "entropy-error", "entropy-short-read", "proof_bytes_equal_default_schedule", "opts:statzk", "opts:mismatch-htf", "opts:htf=sha512", "opts:htf=sha224"],
         "components": {"real": REAL, "stub": STUB_SCHED + ["hint function under fault", "entropy source under fault (error / short read at draw k)"]},
@@ -33,7 +33,7 @@ CHECKS = {
         "level": "exploration",
         "rule": "one evaluation = one live proof compared element-wise with the zero-entropy proof U of the same witness and with the other proofs of its history; a case = (backend, curve, "
                 "generated circuit, witness, statistical-ZK option, history in {sequential, concurrent, entropy error at draw k, replayed entropy}, number of proofs)",
-        "quick": {"runs": 800, "budget_s": 200, "selftest_runs": 5, "params": {"slots": 32}},
+        "quick": {"runs": 800, "budget_s": 200, "race_runs": 48, "race_budget_s": 70, "selftest_runs": 5, "params": {"slots": 32}},
         "thorough": {"runs": 30000, "budget_s": 2400, "selftest_runs": 8, "params": {"slots": 64}},
         "expect_probes": ["history:sequential", "history:concurrent", "entropy_stuck_at_zero", "entropy_error_at_draw_k", "entropy_replayed_block", "circuit_with_commitment"],
         "components": {"real": REAL, "stub": STUB_SCHED + ["entropy source under fault (stuck at zero, error at draw k, replayed block)"]},
